@@ -28,7 +28,11 @@ type CrashRec struct {
 	Mon    *FSMon
 	Rng    *rand.Rand
 	States [][]string // States[i] = model observation after i finished steps
+	Models []*Model   // Models[i] = the model itself (when the workload provides it): needed to continue on an image
 	Images []Image
+
+	ContinueMax int // how many recovered images per case are used further (more transactions, Close, Open)
+	continued   int
 
 	Torn     bool
 	Power    bool
@@ -223,6 +227,73 @@ func (cr *CrashRec) powerImages(cur *Snapshot, ev *FSEvent, base Image) {
 // PushState records the model observation after a finished step.
 func (cr *CrashRec) PushState(obs []string) { cr.States = append(cr.States, obs) }
 
+// PushModel records the model after a finished step (observation + the model itself).
+func (cr *CrashRec) PushModel(m *Model, u *Universe) {
+	cr.States = append(cr.States, obsModel(m, u))
+	for len(cr.Models) < len(cr.States)-1 {
+		cr.Models = append(cr.Models, nil)
+	}
+	cr.Models = append(cr.Models, m.Clone())
+}
+
+// continueOn uses a recovered image the way an application would after a crash: more write transactions (sized
+// so that the segment the crash interrupted is rotated away), a clean Close and another Open. With a model
+// (the recovered state was identified) every call and the final observations are compared with it; without one
+// only panics and the success of the second Open are judged. Takes ownership of db.
+func (cr *CrashRec) continueOn(cfg Cfg, u *Universe, db *nutsdb.DB, dir string, m *Model, class, where string) {
+	c := cr.C
+	strict := m != nil
+	run := &Runner{C: c, Cfg: cfg, Dir: dir, U: u, DB: db, M: NewModel(), Class: class + "-continued"}
+	if strict {
+		run.M = m.Clone()
+	}
+	ds := cfg.Mode == 0 && u.DS
+	g := &Gen{R: cr.Rng, U: u, Cfg: cfg, KV: true, List: ds, Set: ds, ZSet: ds, TTL: true, MaxOps: 4, BigVals: true, M: run.M}
+	c.Log("continuing on %s", where)
+	c.Stat("images_continued", 1)
+	n := 3 + cr.Rng.Intn(6)
+	for i := 0; i < n && !run.Dead; i++ {
+		g.M = run.M
+		t := g.WriteTx(true)
+		if strict {
+			run.Tx(t, false)
+			continue
+		}
+		c.Log("tx %s", t.String())
+		out := execTx(db, t)
+		if out.Panic != "" {
+			c.Violate("panic:tx:"+out.Panic, run.Class, fmt.Sprintf("panic in %s while continuing on %s: %s", t.String(), where, out.Panic))
+			run.Dead = true
+		}
+		for j, o := range t.Ops {
+			if j < len(out.Res) && out.Committed {
+				run.M.Apply(o, out.Res[j]) // steering only
+			}
+		}
+	}
+	if run.Dead {
+		return
+	}
+	if strict {
+		run.CheckObs("continued")
+	}
+	files := countDataFiles(dir)
+	if err := db.Close(); err != nil {
+		c.Violate("close-failed", run.Class, fmt.Sprintf("Close failed while continuing on %s: %v", where, err))
+		return
+	}
+	db2, err := openNoPanic(cfg.Options(dir))
+	if err != nil {
+		c.Violate("reopen-failed:"+errClass(err.Error()), run.Class, fmt.Sprintf("the directory recovered from %s was used for %d more transactions (%d data files) and closed cleanly; Open then failed: %v", where, n, files, err))
+		return
+	}
+	run.DB = db2
+	if strict {
+		run.CheckObs("continued-reopen")
+	}
+	db2.Close()
+}
+
 func openNoPanic(opt nutsdb.Options) (db *nutsdb.DB, err error) {
 	defer func() {
 		if p := recover(); p != nil {
@@ -256,6 +327,8 @@ func (cr *CrashRec) CheckImages(cfg Cfg, u *Universe, mode string, class string)
 		cr.C.Stat("images_"+img.Kind, 1)
 		where := fmt.Sprintf("%s image before event #%d %s %s off=%d len=%d torn=%d (step %d in flight=%v, %s)",
 			img.Kind, img.Ev.Seq, img.Ev.Op, img.Ev.Path, img.Ev.Off, len(img.Ev.Data), img.TornLen, img.Cur+1, img.InFl, cfg)
+		violBefore := len(cr.C.res.Viol)
+		matched := -1
 		db, err := openNoPanic(cfg.Options(dir))
 		if err != nil {
 			cr.C.Violate("image-open-failed:"+imgKindClass(img.Kind)+":"+errClass(err.Error()), class, fmt.Sprintf("Open failed on %s: %v", where, err))
@@ -267,8 +340,14 @@ func (cr *CrashRec) CheckImages(cfg Cfg, u *Universe, mode string, class string)
 				cr.C.Violate("image-obs-error:"+imgKindClass(img.Kind), class, fmt.Sprintf("observation failed on %s: %v", where, oerr))
 			} else {
 				ok := sameObs(got, cr.States[img.Cur])
+				if ok {
+					matched = img.Cur
+				}
 				if !ok && img.InFl && img.Cur+1 < len(cr.States) {
 					ok = sameObs(got, cr.States[img.Cur+1])
+					if ok {
+						matched = img.Cur + 1
+					}
 				}
 				if !ok {
 					want := cr.States[img.Cur]
@@ -281,7 +360,29 @@ func (cr *CrashRec) CheckImages(cfg Cfg, u *Universe, mode string, class string)
 				}
 			}
 		}
-		db.Close()
+		// use some of the recovered images further: torn images first (the interrupted record is still in the file)
+		nViol := len(cr.C.res.Viol)
+		if cr.continued < cr.ContinueMax && nViol == violBefore && (img.Kind == "torn" && cr.Rng.Intn(2) == 0 || cr.Rng.Intn(12) == 0) {
+			cr.continued++
+			var m *Model
+			if mode == "state" && matched >= 0 && matched < len(cr.Models) {
+				m = cr.Models[matched]
+			}
+			if cfg.Mode == 2 {
+				// sparse mode: a recovered image that reads like a committed prefix can still carry records of the
+				// interrupted transaction outside the persisted key range (recorded finding KF-SPARSE-CRASH); they
+				// surface when later commits widen the range. The continuation there judges panics and the second
+				// Open only, not values.
+				m = nil
+			}
+			if mode == "open" || m != nil || cfg.Mode == 2 {
+				cr.continueOn(cfg, u, db, dir, m, class, where)
+				db = nil
+			}
+		}
+		if db != nil {
+			db.Close()
+		}
 		if len(cr.C.res.Viol) >= 8 {
 			break
 		}
